@@ -4,8 +4,10 @@ package gomatrixserverlib
 
 import (
 	"bytes"
+	"fmt"
 	"strings"
 	"testing"
+	"unicode/utf16"
 	"unicode/utf8"
 
 	"pgregory.net/rapid"
@@ -329,10 +331,64 @@ func c01EnumShort(size, shard, nshards int, emit func(c01Case)) {
 	rec(size)
 }
 
+// c01EnumEscapes: every scalar value of the Basic Multilingual Plane (and a stride through the
+// astral planes as surrogate pairs) written as a \uXXXX escape, lower- or upper-case hex, as object
+// key and as string value, against the same value written literally.
+func c01EnumEscapes(size, shard, nshards int, emit func(c01Case)) {
+	idx := 0
+	one := func(r rune) {
+		if idx%nshards != shard {
+			idx++
+			return
+		}
+		idx++
+		esc := func(upper bool) string {
+			f := "\\u%04x"
+			if upper {
+				f = "\\u%04X"
+			}
+			if r >= 0x10000 {
+				hi, lo := utf16.EncodeRune(r)
+				return fmt.Sprintf(f+f, hi, lo)
+			}
+			return fmt.Sprintf(f, r)
+		}
+		lit := string(r)
+		switch {
+		case r == '"' || r == '\\':
+			lit = "\\" + string(r)
+		case r < 0x20:
+			lit = "" // control characters have no literal spelling
+		}
+		for _, upper := range []bool{false, true} {
+			c := c01Case{Text: vfBytes(`{"k` + esc(upper) + `":["` + esc(upper) + `x"]}`)}
+			if lit != "" {
+				c.Alt = vfBytes(`{"k` + lit + `":["` + lit + `x"]}`)
+			}
+			emit(c)
+		}
+	}
+	for r := rune(0); r <= 0xffff; r++ {
+		if r >= 0xd800 && r <= 0xdfff {
+			continue
+		}
+		one(r)
+	}
+	step := rune(0x1000)
+	if size > 1 {
+		step = 0x10
+	}
+	for r := rune(0x10000); r <= 0x10ffff; r += step {
+		one(r)
+		one(r + step - 1)
+	}
+}
+
 func init() {
 	rule := "non-trivial = valid text whose bytes differ from its canonical form (unsorted keys, alternative escape spelling, whitespace, -0) or that contains a fraction/exponent/out-of-range number or that comes with a second presentation; or an invalid text within two byte edits of a valid one (must be rejected; the enumerated invalid texts are judged but not counted as non-trivial). distinct = distinct Case JSON."
 	vfRapid("C01/values", rule, 3000, 100000, 16, c01GenValue, c01Check)
 	vfRapid("C01/mutated", rule, 3000, 100000, 16, c01GenMutated, c01Check)
+	vfEnum("C01/escape-sweep", rule+" Enumerates every BMP scalar value (and a stride of astral ones) as \\uXXXX escape in key and value position, against its literal spelling.", 1, 2, 16, c01EnumEscapes, c01Check)
 	vfEnum("C01/short-texts", rule+" Enumerates every text up to the size bound over the alphabet `{}[]\"\\:,-01.eEu a` (17 symbols).", 4, 6, 16, c01EnumShort, c01Check)
 }
 
